@@ -166,7 +166,7 @@ Plan gen_plan(const std::string &prop, uint64_t seed, int64_t run) {
     } else if (prop == "C11") {
         common_knobs(p, r, 0);
         auto stage = swarm(cat({CREATE, EDIT, REFS, {{"parse", 5}, {"add_obj_cs", 4}}}), r);
-        auto after = swarm(cat({EDIT, {{"delete", 4}, {"dupcheck", 3}, {"q_val", 1}, {"print", 2}}}), r);
+        auto after = swarm(cat({EDIT, {{"delete", 4}, {"dupcheck", 3}, {"dup", 2}, {"q_val", 1}, {"print", 2}}}), r);
         add_steps(p, CREATE, r, 2);
         add_steps(p, stage, r, len_range(r, 3, 20));
         p.steps.push_back(make_step("dupcheck", r));
